@@ -71,8 +71,10 @@ class VLoop(Loop):
         if ctx is not None:
             self.uid = ctx.register_loop(self)
 
-    def schedule(self, target, signal=None, *, delay=None, at=None):
-        super().schedule(target, signal, delay=delay, at=at)
+    def schedule(self, target, signal=None, *args, delay=None, at=None, **kw):
+        # (further parameters a later version of Loop.schedule may have are passed through untouched: the observer models
+        # "made runnable in this order", whatever options the caller gives)
+        super().schedule(target, signal, *args, delay=delay, at=at, **kw)
         if self.ctx is not None:
             if delay is None and at is None:
                 key = self.time
